@@ -333,3 +333,57 @@ where
         }
     }
 }
+
+/// Verification hooks (only with `--cfg libp2p_verif`): thin wrappers around the crate-private
+/// packet builders and parsers.
+#[cfg(libp2p_verif)]
+pub(crate) mod verif {
+    use std::{net::SocketAddr, time::Duration};
+
+    use libp2p_core::Multiaddr;
+    use libp2p_identity::PeerId;
+
+    use super::{dns, query::MdnsPacket};
+
+    /// Outcome of parsing one datagram.
+    #[derive(Debug)]
+    pub enum Parsed {
+        Error(String),
+        Ignored,
+        Query(u16),
+        ServiceDiscovery(u16),
+        /// One entry per discovered peer: id, addresses, ttl in seconds.
+        Response(Vec<(PeerId, Vec<Multiaddr>, u64)>),
+    }
+
+    pub fn build_query() -> Vec<u8> {
+        dns::build_query()
+    }
+
+    pub fn build_query_response(
+        id: u16,
+        peer_id: PeerId,
+        addresses: &[Multiaddr],
+        ttl: Duration,
+    ) -> Vec<Vec<u8>> {
+        dns::build_query_response(id, peer_id, addresses.iter(), ttl)
+    }
+
+    pub fn build_service_discovery_response(id: u16, ttl: Duration) -> Vec<u8> {
+        dns::build_service_discovery_response(id, ttl)
+    }
+
+    pub fn parse(buf: &[u8], from: SocketAddr) -> Parsed {
+        match MdnsPacket::new_from_bytes(buf, from) {
+            Err(e) => Parsed::Error(e.to_string()),
+            Ok(None) => Parsed::Ignored,
+            Ok(Some(MdnsPacket::Query(q))) => Parsed::Query(q.query_id()),
+            Ok(Some(MdnsPacket::ServiceDiscovery(q))) => Parsed::ServiceDiscovery(q.query_id()),
+            Ok(Some(MdnsPacket::Response(r))) => Parsed::Response(
+                r.verif_peers()
+                    .map(|p| (*p.id(), p.addresses().clone(), p.ttl().as_secs()))
+                    .collect(),
+            ),
+        }
+    }
+}
